@@ -114,6 +114,11 @@ class udp(packet_base):
             self.next = vxlan(raw=raw[udp.MIN_LEN:],prev=self)
         elif dlen < self.len:
             self.msg('(udp parse) warning UDP packet data shorter than UDP len: %u < %u' % (dlen, self.len))
+            # (e.g. the first fragment of a datagram.)  Treat it as not
+            # parsed so that it is re-serialised from its raw bytes; as a
+            # "parsed" header without payload it lost the data it carries
+            # and had its length and checksum rewritten.
+            self.parsed = False
             return
         else:
             self.payload = raw[udp.MIN_LEN:]
